@@ -2,7 +2,9 @@
 
 Tie (U): random histories over the public Mesh API on small random models are run on the real code;
 every file written and every set of operation points after a backport is parsed and compared, inside
-Coq, with the state machine of Model/C12_MeshLife.v (`run fixed tables (init store) history`).
+Coq, with the state machine of Model/C12_MeshLife.v (`run fixed tables (init store) history`); its Mesh.grade is the
+propagation model of C01/C02 run from the state the previous write left (Model/C12_Regrade.v), so meshes whose
+counts and gradings are propagated from neighbouring blocks are inside the comparison, second writes included.
 Tie (F): the constant tables the model takes as parameters (face corners per orient, wire corner pairs
 per axis, the default patch type) are tabulated from the working tree into coq/Gen/C12/Tables.v.
 
@@ -127,6 +129,138 @@ def gen_model(rng, rich):
                 d["extras"].append(["project_side", rng.choice(ORIENTS), "geo", rng.random() < 0.5, rng.random() < 0.5])
             if rng.random() < 0.2:
                 d["extras"].append(["cell_zone", "zone%d" % rng.randrange(2)])
+    return ops
+
+
+
+def cube_rotations():
+    """corner permutations of the reference hexahedron under its 24 proper rotations: corner i of the rotated
+    operation sits where corner p[i] of the unrotated one sits"""
+    import itertools
+    rots = []
+    for perm in itertools.permutations(range(3)):
+        inv = sum(1 for i in range(3) for j in range(i + 1, 3) if perm[i] > perm[j])
+        for signs in itertools.product([1, -1], repeat=3):
+            if (-1) ** inv * signs[0] * signs[1] * signs[2] != 1:
+                continue
+            p = []
+            for (x, y, z) in XYZ:
+                c = [2 * x - 1, 2 * y - 1, 2 * z - 1]
+                d = [signs[i] * c[perm[i]] for i in range(3)]
+                p.append(XYZ.index(tuple((v + 1) // 2 for v in d)))
+            rots.append(p)
+    return rots
+
+
+ROTATIONS = cube_rotations()
+AXIS_PAIRS_REF = [[(0, 1), (3, 2), (7, 6), (4, 5)], [(0, 3), (1, 2), (5, 6), (4, 7)], [(0, 4), (1, 5), (2, 6), (3, 7)]]
+
+
+def ratios_for(counts, mode):
+    """length ratios of a multi-section chop; one rule per model, so that within a mesh the list of section counts
+    determines the whole specification (the model carries the counts, coq_file checks the ratios)"""
+    if len(counts) == 1:
+        return [None]
+    if mode == "half" and len(counts) == 2:
+        return [0.5, 0.5]
+    n = sum(counts)
+    return [c / n for c in counts]
+
+
+def chop_kwargs(counts, mode):
+    return [dict(count=c) if r is None else dict(length_ratio=r, count=c) for c, r in zip(counts, ratios_for(counts, mode))]
+
+
+def gen_prop_model(rng):
+    """inside the scope of the Coq model, WITH propagation: boxes of a jittered lattice, each with its corners listed
+    from a random corner in a random orientation (so that neighbours run along other local axes, often against each
+    other: gradings get inverted); per family of parallel block directions usually ONE axis carries the chops
+    (one or several sections), sometimes two or all (consistent, or deliberately not), sometimes none"""
+    cells_pool = [[(0, 0, 0), (1, 0, 0)], [(0, 0, 0), (1, 0, 0), (2, 0, 0)], [(0, 0, 0), (0, 1, 0)],
+                  [(0, 0, 0), (1, 0, 0), (0, 1, 0)], [(0, 0, 0), (0, 0, 1), (1, 0, 0)],
+                  [(0, 0, 0), (1, 0, 0), (1, 1, 0), (0, 1, 0)], [(0, 1, 0), (2, 1, 0), (1, 1, 0), (1, 0, 0)],
+                  [(0, 0, 0), (1, 0, 0), (1, 1, 0), (1, 1, 1)], [(0, 0, 0), (2, 0, 0)]]
+    cells = list(rng.choice(cells_pool))
+    if rng.random() < 0.6:
+        rng.shuffle(cells)
+    mode = rng.choice(["half", "prop", "prop"])
+    jit = {}
+
+    def lp(p):
+        if p not in jit:
+            jit[p] = tuple(rng.choice([-1, 0, 0, 1]) for _ in range(3)) if rng.random() < 0.5 else (0, 0, 0)
+        return [SPACING * p[i] + jit[p][i] for i in range(3)]
+
+    ops, lat = [], []
+    for (i, j, k) in cells:
+        rot = rng.choice(ROTATIONS) if rng.random() < 0.75 else list(range(8))
+        corners = [(i + XYZ[rot[c]][0], j + XYZ[rot[c]][1], k + XYZ[rot[c]][2]) for c in range(8)]
+        lat.append(corners)
+        patches = {}
+        for o in ORIENTS:
+            if rng.random() < 0.2:
+                patches[o] = rng.choice(NAMES)
+        ops.append(dict(pts=[lp(c) for c in corners], patches=patches, chops=[[], [], []], extras=[], mode=mode))
+    # families: block directions connected through shared lattice edges
+    parent = {}
+
+    def find(x):
+        while parent.setdefault(x, x) != x:
+            parent[x] = parent[parent[x]]
+            x = parent[x]
+        return x
+
+    edge_owner = {}
+    sign = {}
+    for b, corners in enumerate(lat):
+        for a in range(3):
+            find((b, a))
+            c1, c2 = AXIS_PAIRS_REF[a][0]
+            d = [corners[c2][q] - corners[c1][q] for q in range(3)]
+            sign[(b, a)] = sum(d)  # +1 / -1 along the global direction
+            for (c1, c2) in AXIS_PAIRS_REF[a]:
+                e = frozenset([corners[c1], corners[c2]])
+                if e in edge_owner:
+                    parent[find((b, a))] = find(edge_owner[e])
+                else:
+                    edge_owner[e] = (b, a)
+    fams = {}
+    for x in list(parent):
+        fams.setdefault(find(x), []).append(x)
+    for members in fams.values():
+        members.sort()
+        n = rng.choice([2, 3, 4, 5, 6])
+        r = rng.random()
+        if r < 0.55 or n < 3:
+            secs = [n]
+        elif r < 0.9:
+            k = rng.randrange(1, n)
+            secs = [k, n - k]
+        else:
+            k = rng.randrange(1, n - 1)
+            l = rng.randrange(1, n - k)
+            secs = [k, l, n - k - l]
+        r = rng.random()
+        if r < 0.015:
+            chosen = []                      # nobody chops this direction: UndefinedGradingsError
+        elif r < 0.65:
+            chosen = [rng.choice(members)]
+        elif r < 0.85:
+            chosen = rng.sample(members, min(2, len(members)))
+        else:
+            chosen = list(members)
+        for idx, (b, a) in enumerate(chosen):
+            mine = list(secs) if sign[(b, a)] > 0 else list(reversed(secs))
+            if idx > 0:
+                q = rng.random()
+                if q < 0.06:
+                    mine[-1] += 1            # another count: InconsistentGradingsError
+                elif q < 0.3 and n >= 2:
+                    # same count, other sections: InconsistentGradingsError where the two blocks share a wire, else the
+                    # blocks between them get different gradings on their wires (edgeGrading)
+                    k = rng.randrange(1, n)
+                    mine = rng.choice([[k, n - k], list(reversed(mine)), [n]])
+            ops[b]["chops"][a] = chop_kwargs(mine, mode)
     return ops
 
 
@@ -286,19 +420,19 @@ def parse_file(text):
     return out
 
 
-def close(a, b):
+def close(a, b, tol=1e-9):
     """structural equality with 1e-9 relative tolerance on numbers"""
     if isinstance(a, (list, tuple)) and isinstance(b, (list, tuple)):
-        return len(a) == len(b) and all(close(x, y) for x, y in zip(a, b))
+        return len(a) == len(b) and all(close(x, y, tol) for x, y in zip(a, b))
     if isinstance(a, dict) and isinstance(b, dict):
-        return set(a) == set(b) and all(close(a[k], b[k]) for k in a)
+        return set(a) == set(b) and all(close(a[k], b[k], tol) for k in a)
     if isinstance(a, str) and isinstance(b, str):
         if a == b:
             return True
         x, y = num(a), num(b)
-        return x is not None and y is not None and math.isclose(x, y, rel_tol=1e-9, abs_tol=1e-9)
+        return x is not None and y is not None and math.isclose(x, y, rel_tol=tol, abs_tol=tol)
     if isinstance(a, (int, float)) and isinstance(b, (int, float)):
-        return math.isclose(a, b, rel_tol=1e-9, abs_tol=1e-9)
+        return math.isclose(a, b, rel_tol=tol, abs_tol=tol)
     return a == b
 
 
@@ -386,6 +520,44 @@ def run_impl(ops_desc, history, workdir):
             if ev is not None:
                 events.append(ev)
         return events, None
+
+
+
+def order_mismatch(ops_desc):
+    """the model iterates Wire.coincident_list / Axis.neighbour_list in the insertion order of
+    BlockList.update_neighbours (blocks ascending, wires by axis and position); None if the implementation does"""
+    cb = _cb()
+    with warnings.catch_warnings():
+        warnings.simplefilter("ignore")
+        mesh = cb.Mesh()
+        for d in ops_desc:
+            mesh.add(build_op(d))
+        mesh.assemble()
+        wid, aid, wires, axes = {}, {}, [], []
+        for b, blk in enumerate(mesh.blocks):
+            for a in range(3):
+                aid[id(blk.axes[a])] = (b, a)
+                axes.append((b, a))
+                for k, w in enumerate(blk.axes[a].wires.wires):
+                    wid[id(w)] = (b, a, k)
+                    wires.append(((b, a, k), (w.vertices[0].index, w.vertices[1].index)))
+        ends = dict(wires)
+
+        def coin(u, v):
+            return u[0] != v[0] and (ends[u] == ends[v] or ends[u] == ends[v][::-1])
+
+        for b, blk in enumerate(mesh.blocks):
+            for a in range(3):
+                for k, w in enumerate(blk.axes[a].wires.wires):
+                    got = [wid[id(c)] for c in w.coincident_list]
+                    exp = [v for (v, _e) in wires if coin((b, a, k), v)]
+                    if got != exp:
+                        return "coincident_list of wire %r: %r, insertion order %r" % ((b, a, k), got, exp)
+                got = [aid[id(x)] for x in blk.axes[a].neighbour_list]
+                exp = [y for y in axes if y[0] != b and any(coin((b, a, k), (y[0], y[1], l)) for k in range(4) for l in range(4))]
+                if got != exp:
+                    return "neighbour_list of axis %r: %r, insertion order %r" % ((b, a), got, exp)
+    return None
 
 
 # ------------------------------------------------------------------------------------------------
@@ -520,8 +692,12 @@ def oracle_history(ops_desc, history, workdir):
             if exp[0] == "file":
                 diff = files_differ(got[1], exp[1])
                 if diff:
-                    return dict(where, why="written file differs from the file of a freshly built equivalent mesh in: " + diff,
-                                sig="C12:write:differs:" + diff.split(":")[0] + (":" + diff.split(":")[1].strip().split(" ")[0] if ":" in diff else "") + rep)
+                    tol = ""
+                    if diff == "blocks" and close(got[1]["blocks"], exp[1]["blocks"], 2e-7):
+                        tol = ":within-tolerance"  # equal up to constants.TOL (Grading.__eq__), not equal
+                    return dict(where, why="written file differs from the file of a freshly built equivalent mesh in: " + diff
+                                + (" (numbers equal up to 2e-7 relative)" if tol else ""),
+                                sig="C12:write:differs:" + diff.split(":")[0] + (":" + diff.split(":")[1].strip().split(" ")[0] if ":" in diff else "") + tol + rep)
             elif exp[0] == "points":
                 for j, (a, b) in enumerate(zip(got[1], exp[1])):
                     if not close(a, b):
@@ -534,8 +710,9 @@ def oracle_history(ops_desc, history, workdir):
 # generation of histories (dynamic: follows the state of the implementation)
 
 
-def gen_history(rng, ops_desc, nmax, workdir, add_all=False):
-    """returns (history, events, error)"""
+def gen_history(rng, ops_desc, nmax, workdir, add_all=False, again=0.0, calm=False):
+    """returns (history, events, error); again: probability of one more write at the very end (write; write);
+    calm: deletions and patch merges (both take chopped blocks / shared vertices away) are drawn four times less often"""
     with warnings.catch_warnings():
         warnings.simplefilter("ignore")
         im = Impl(ops_desc, workdir)
@@ -613,6 +790,10 @@ def gen_history(rng, ops_desc, nmax, workdir, add_all=False):
                 c = ["write"]
             if c is None:
                 continue
+            if calm and c[0] in ("delete", "merge") and rng.random() < 0.75:
+                if c[0] == "delete":
+                    deleted.discard(c[1])
+                continue
             hist.append(c)
             try:
                 ev = im.call(c)
@@ -621,6 +802,13 @@ def gen_history(rng, ops_desc, nmax, workdir, add_all=False):
             if ev is not None:
                 events.append(ev)
         if not any(c[0] == "write" for c in hist[-2:]):
+            hist.append(["write"])
+            try:
+                events.append(im.call(["write"]))
+            except Exception as e:
+                return hist, events, type(e).__name__
+        while rng.random() < again:
+            again *= 0.3
             hist.append(["write"])
             try:
                 events.append(im.call(["write"]))
@@ -661,6 +849,10 @@ def coq_op(d):
     pat = ["None"] * 6
     for o, name in d["patches"].items():
         pat[slot_of(o)] = "Some %d" % nid(name)
+    for a in range(3):
+        for kw in d["chops"][a]:
+            if set(kw) - {"count", "length_ratio"}:
+                raise OutOfScope("chop %r" % (kw,))
     chops = "[" + "; ".join(nl([kw["count"] for kw in d["chops"][a]]) for a in range(3)) + "]"
     return "{| o_pts := [%s]; o_pat := [%s]; o_chops := %s |}" % ("; ".join(cpos(p) for p in d["pts"]), "; ".join(pat), chops)
 
@@ -695,7 +887,7 @@ class OutOfScope(Exception):
     pass
 
 
-def coq_file(p):
+def coq_file(p, mode="half"):
     """the parsed file in the vocabulary of the model; anything the model cannot express raises OutOfScope
     (the case then counts as a mismatch: in-scope models never produce it)"""
     if p["edges"][1:] or p["faces"][1:] or p["geometry"] is not None:
@@ -709,11 +901,13 @@ def coq_file(p):
         vs.append(cpos(xyz))
     bs = []
     for b in p["blocks"]:
-        if b["zone"] or len(b["grading"]) != 3 or b["gkind"] != "simpleGrading":
+        nspec = {"simpleGrading": 3, "edgeGrading": 12}.get(b["gkind"])
+        if b["zone"] or nspec is None or len(b["grading"]) != nspec:
             raise OutOfScope("block %r" % (b,))
         secs = []
-        for a in range(3):
-            g = b["grading"][a]
+        for j in range(nspec):
+            a = j if nspec == 3 else j // 4
+            g = b["grading"][j]
             if isinstance(g, float):
                 if g != 1.0:
                     raise OutOfScope("expansion %r" % g)
@@ -722,7 +916,14 @@ def coq_file(p):
                 for (_r, _c, e) in g:
                     if e != 1.0:
                         raise OutOfScope("expansion %r" % e)
-                secs.append([int(c) for (_r, c, _e) in g])
+                cs = [int(c) for (_r, c, _e) in g]
+                if len(cs) < 2 or any(c != x for c, (_r, x, _e) in zip(cs, g)):
+                    raise OutOfScope("sections %r" % (g,))
+                # the length ratios travel with the counts (one rule per model)
+                want = ratios_for(cs, mode)
+                if any(not math.isclose(r, w, rel_tol=1e-12) for (r, _c, _e), w in zip(g, want)):
+                    raise OutOfScope("length ratios %r of sections %r (rule %s)" % ([r for (r, _c, _e) in g], cs, mode))
+                secs.append(cs)
         bs.append("(%s, %s, [%s])" % (nl(b["hex"]), nl(b["counts"]), "; ".join(nl(s) for s in secs)))
     ps = []
     for name in p["boundary_order"]:
@@ -750,16 +951,17 @@ def flat(x):
     return out
 
 
-def coq_event(ev):
+def coq_event(ev, mode="half"):
     if ev[0] == "file":
-        return "EFile " + coq_file(ev[1])
+        return "EFile " + coq_file(ev[1], mode)
     return "EPoints [" + "; ".join("[" + "; ".join(cpos(p) for p in pts) + "]" for pts in ev[1]) + "]"
 
 
 def coq_case(i, ops_desc, hist, events, err):
     store = "[" + "; ".join("(%d, %s)" % (k, coq_op(d)) for k, d in enumerate(ops_desc)) + "]"
     h = "[" + "; ".join(coq_call(c) for c in hist) + "]"
-    evs = "[" + ";\n     ".join(coq_event(e) for e in events) + "]"
+    mode = ops_desc[0].get("mode", "half") if ops_desc else "half"
+    evs = "[" + ";\n     ".join(coq_event(e, mode) for e in events) + "]"
     if err is None:
         e = "None"
     elif err in ERR:
@@ -891,10 +1093,57 @@ CORPUS = [
 ]
 
 
+def _rbox(x0, rot, chops, mode="prop"):
+    base = [[x0 + SPACING * x, SPACING * y, SPACING * z] for (x, y, z) in XYZ]
+    return dict(pts=[base[rot[c]] for c in range(8)], patches={}, chops=[chop_kwargs(c, mode) if c else [] for c in chops],
+                extras=[], mode=mode)
+
+
+# propagated gradings (chops on one block, the neighbours turned so that sections arrive reversed), written twice,
+# moved, back-ported
+_TURN = [2, 3, 0, 1, 6, 7, 4, 5]      # half turn about z: local x and y run against the global ones
+_ROLL = [1, 5, 6, 2, 0, 4, 7, 3]      # local x = global z, local y = global y, local z = -global x
+CORPUS_P_OPS = [_rbox(0, list(range(8)), [[2], [1, 3], [2, 1, 2]]), _rbox(SPACING, _TURN, [[5], [], []]),
+                _rbox(2 * SPACING, _ROLL, [[], [], [3]])]
+CORPUS_P = [
+    [["add", 1], ["add", 0], ["write"], ["write"]],
+    [["add", 0], ["add", 1], ["add", 2], ["write"], ["write"], ["write"]],
+    [["add", 2], ["add", 1], ["add", 0], ["write"], ["move", 3, [0, 1, 0]], ["write"], ["backport"], ["write"], ["write"]],
+    [["add", 1], ["add", 2], ["write"]],                      # nobody chops y and z there: UndefinedGradingsError
+    [["add", 0], ["add", 1], ["write"], ["delete", 0], ["backport"], ["write"]],
+]
+
+
+# a block between two chopped ones that split the same count differently: its wires carry different gradings (edgeGrading)
+CORPUS_E_OPS = [_rbox(0, list(range(8)), [[2], [2], [1, 2]]), _rbox(SPACING, list(range(8)), [[2], [], []]),
+                _rbox(2 * SPACING, list(range(8)), [[2], [2], [2, 1]])]
+CORPUS_E = [
+    [["add", 0], ["add", 1], ["add", 2], ["write"], ["write"]],
+    [["add", 2], ["add", 1], ["add", 0], ["write"], ["move", 0, [1, 0, 0]], ["write"], ["backport"], ["write"]],
+]
+
+
+def _ebox(x, y, zchop):
+    pts = [[x + dx, y + dy, dz] for (dx, dy, dz) in XYZ]
+    return dict(pts=pts, patches={}, chops=[[dict(count=3)], [dict(count=3)], zchop], extras=[])
+
+
+# NOT in scope of the model (total expansions): a wire of an un-chopped axis that is defined by neighbours graded before
+# it takes, on the second write, the tolerance-equal grading of a neighbour graded after it (notes/C12.md, fixes/C12-4.diff).
+# Run only when its signature is registered in known_findings.json (open: reported as KNOWN-FINDING; fixed: must pass).
+TOLERANCE_SIG = "C12:write:differs:blocks:within-tolerance:repeated-write"
+TOLERANCE_OPS = [_ebox(0, 1, [dict(count=10, total_expansion=2.0)]), _ebox(2, 1, [dict(count=10, total_expansion=2.0)]),
+                 _ebox(1, 1, []), _ebox(1, 0, [dict(count=10, total_expansion=2.0 + 1e-8)])]
+TOLERANCE_HISTORY = [["add", 0], ["add", 1], ["add", 2], ["add", 3], ["write"], ["write"]]
+
+
 class C12(Prop):
     pid = "C12"
     title = "assemble/clear/backport/delete/write round-trips preserve the model"
-    prebuilt = ["Base/Hex.v", "Model/C12_MeshLife.v", "Proofs/C12_Lists.v", "Proofs/C12_MeshLife.v", "Proofs/C12_Refute.v"]
+    prebuilt = ["Base/Hex.v", "Model/Propagate.v", "Proofs/PropagateBasics.v", "Proofs/PropagateTerm.v", "Proofs/PropagateInv.v",
+                "Proofs/PropagateInit.v", "Proofs/PropagateShort.v", "Proofs/PropagateFinal.v", "Model/C04_Payload.v",
+                "Model/C12_Regrade.v", "Proofs/C12_Regrade.v", "Model/C12_MeshLife.v", "Proofs/C12_Lists.v",
+                "Proofs/C12_MeshLife.v", "Proofs/C12_Refute.v", "Proofs/C12_Tolerance.v"]
     gen_dependent_files = ["Gen/C12/Tables.v"]
     property_files = ["Properties/C12.v"]
     trusted = [
@@ -903,13 +1152,21 @@ class C12(Prop):
         "parser of the written blockMeshDict (comments dropped, brackets nested) and the mapping of names / types / "
         "settings strings to numbers",
         "scope of the hand model: single-Operation entities with straight edges, integer coordinates, count-only chops "
-        "on every axis (no propagation); histories outside it are judged by the direct oracle only",
+        "(one or several per axis, or none: counts and gradings propagated from neighbours are inside the model); a chop is "
+        "its count, a grading the list of its section counts - the length ratios of multi-section chops follow one rule per "
+        "generated model (checked on every written file), every total expansion is 1; histories outside the scope (size "
+        "chops, arcs, projections, zones) are judged by the direct oracle only",
+        "Model/Propagate.v (C01/C02) as the transcription of grade_blocks / propagate_gradings / check_consistency; the "
+        "iteration order of Wire.coincident_list and Axis.neighbour_list is taken to be the insertion order (compared with "
+        "the implementation on every generated model; the theorems hold for every order)",
         "history correspondence is sampled (random histories), not exhaustive",
     ]
     partial = [
-        "C12_write_idempotent_partial: proved for the modelled class (every axis of every block chopped by count, the "
-        "grading state being the per-axis section list); idempotence of grade() where counts are propagated from "
-        "neighbours is outside Model/C12_MeshLife.v and rests on the direct oracle (rich histories) only",
+        "C12_second_write_exact_with_expansions_refuted: with total expansions other than 1 the code compares gradings of "
+        "coincident wires up to constants.TOL and copy_neighbours lets the last defined coincident wire win; a second "
+        "write can then print the tolerance-equal grading of another neighbour (witness on the payload model of C04; "
+        "reproduced on the implementation, notes/C12.md). C12_write_idempotent is exact for count-only chops "
+        "(propagated or not); what survives with expansions (counts always, specifications up to TOL) is not proved",
     ]
 
     def generate(self, ctx):
@@ -917,22 +1174,30 @@ class C12(Prop):
         ctx.write_gen("Tables", emit_tables(t))
         self._tables = t
 
-    def _cases(self, ctx, n, rich, nmax):
+    def _cases(self, ctx, n, rich, nmax, prop=False):
         out = []
         for _ in range(n):
-            ops_desc = gen_model(ctx.rng, rich)
-            hist, events, err = gen_history(ctx.rng, ops_desc, nmax, ctx.work, add_all=ctx.rng.random() < (0.7 if rich else 0.3))
+            if prop:
+                ops_desc = gen_prop_model(ctx.rng)
+                hist, events, err = gen_history(ctx.rng, ops_desc, nmax, ctx.work, add_all=ctx.rng.random() < 0.9, again=0.75, calm=True)
+            else:
+                ops_desc = gen_model(ctx.rng, rich)
+                hist, events, err = gen_history(ctx.rng, ops_desc, nmax, ctx.work, add_all=ctx.rng.random() < (0.7 if rich else 0.3))
             out.append((ops_desc, hist, events, err))
         return out
 
     def correspond(self, ctx):
         res = CorrResult()
         res.rule = ("random histories (3..%d calls) of add/delete/assemble/move/backport/clear/modify_patch/"
-                    "set_default_patch/merge_patches/write on 1..4 lofts of a jittered integer lattice; compared inside Coq "
-                    "with `run fixed tb (init store) history`: every written file (vertices, hex indexes, counts, grading "
-                    "sections, patches with type/settings/faces, defaultPatch, mergePatchPairs), every operation's points "
-                    "after each backport, and the exception class that ends the history; non-trivial = at least one of "
-                    "clear/backport/delete and a write after it, or two writes; distinct by (model, history)" % ctx.n(12, 30))
+                    "set_default_patch/merge_patches/write on 1..4 lofts of a jittered integer lattice - every axis chopped, "
+                    "or (second class) corners listed from a random corner in a random orientation and chops on one axis per "
+                    "family of block directions (sometimes two, all, none, or conflicting), one to three sections, the rest "
+                    "propagated, most histories ending in write; write; compared inside Coq with "
+                    "`run fixed tb (init store) history`: every written file (vertices, hex indexes, counts, simple/edgeGrading "
+                    "choice with the section counts of each printed wire, patches with type/settings/faces, defaultPatch, "
+                    "mergePatchPairs), every operation's points after each backport, and the exception class that ends the "
+                    "history; non-trivial = at least one of clear/backport/delete and a write after it, or two writes; "
+                    "distinct by (model, history)" % ctx.n(12, 30))
         import time
         t0 = time.time()
         nmax = ctx.n(12, 30)
@@ -941,8 +1206,26 @@ class C12(Prop):
             ev, er = run_impl(CORPUS_OPS, h, ctx.work)
             plain.append((CORPUS_OPS, h, ev, er))
             res.count("corpus")
-        plain += self._cases(ctx, ctx.n(480, 6000), False, nmax)
+        for (cops, chs) in ((CORPUS_P_OPS, CORPUS_P), (CORPUS_E_OPS, CORPUS_E)):
+            for h in chs:
+                ev, er = run_impl(cops, h, ctx.work)
+                plain.append((cops, h, ev, er))
+                res.count("corpus")
+        plain += self._cases(ctx, ctx.n(300, 4000), False, nmax)
+        nplain = len(plain)
+        plain += self._cases(ctx, ctx.n(260, 3000), False, nmax, prop=True)
         rich = self._cases(ctx, ctx.n(160, 2000), True, nmax)
+        # iteration order of coincident wires / neighbour axes: the model's is the insertion order
+        seen_models = set()
+        for (ops_desc, hist, _ev, _er) in plain:
+            key = json.dumps(ops_desc, sort_keys=True)
+            if key in seen_models:
+                continue
+            seen_models.add(key)
+            why = order_mismatch(ops_desc)
+            res.count("order_checked")
+            if why:
+                res.mismatches.append(dict(ops=ops_desc, history=hist, why="iteration order assumed by the model: " + why))
         ctx.log("S3: %d histories run on the implementation in %.1fs" % (len(plain) + len(rich), time.time() - t0))
         t0 = time.time()
         coq_cases = []
@@ -954,6 +1237,21 @@ class C12(Prop):
             for c in hist:
                 res.count("call=" + c[0])
             kinds = [c[0] for c in hist]
+            if any(not d["chops"][a] for d in ops_desc for a in range(3)):
+                res.count("propagated")
+                res.count("propagated_outcome=" + (err or "ok"))
+                run_len = best = 0
+                for k in kinds:
+                    run_len = run_len + 1 if k == "write" else (run_len if k in ("move", "modify", "default", "merge") else 0)
+                    best = max(best, run_len)
+                if err is None and best >= 2:
+                    res.count("propagated_written_twice")
+                if any(len(d["chops"][a]) > 1 for d in ops_desc for a in range(3)):
+                    res.count("propagated_multi_section")
+            for ev in events:
+                if ev[0] == "file" and any(b["gkind"] == "edgeGrading" for b in ev[1]["blocks"]):
+                    res.count("edgeGrading_written")
+                    break
             nontrivial = kinds.count("write") >= 2 or any(
                 k in ("clear", "backport", "delete") and "write" in kinds[j + 1:] for j, k in enumerate(kinds))
             if nontrivial:
@@ -998,12 +1296,23 @@ class C12(Prop):
                 seen.add(r["sig"])
                 h2, r2 = shrink(ops_desc, hist, ctx.work)
                 res.oracle_failures.append(dict(kind="history", ops=ops_desc, history=h2, why=r2["why"], at=r2["step"], sig=r2["sig"]))
+        registered = [f for f in core.load_findings() if f.get("signature") == TOLERANCE_SIG]
+        if registered:
+            r = oracle_history(TOLERANCE_OPS, TOLERANCE_HISTORY, ctx.work)
+            res.count("tolerance_probe=" + ("fails" if r else "passes"))
+            if r and not r.get("illformed") and r["sig"] not in seen:
+                seen.add(r["sig"])
+                res.oracle_failures.append(dict(kind="history", ops=TOLERANCE_OPS, history=TOLERANCE_HISTORY, why=r["why"],
+                                                at=r["step"], sig=r["sig"]))
+        else:
+            res.notes.append("second write within constants.TOL (gradings with expansions, %s): probe not run, the signature "
+                             "is not registered in known_findings.json; reproduction in notes/C12.md" % TOLERANCE_SIG)
         ctx.log("S3: direct oracle on %d histories in %.1fs, %d failure(s)" % (len(plain) + len(rich), time.time() - t0, len(res.oracle_failures)))
         for (_o, h, _e, er) in rich:
             res.count("rich_outcome=" + (er or "ok"))
-        res.notes.append("%d histories compared with the Coq model, %d further histories on models outside its scope "
-                         "(propagated counts, size chops, arcs, projections, zones) judged by the direct oracle only"
-                         % (len(coq_cases), len(rich)))
+        res.notes.append("%d histories compared with the Coq model (%d of them on models with propagated gradings), %d "
+                         "further histories on models outside its scope (size chops, arcs, projections, zones) judged by the "
+                         "direct oracle only" % (len(coq_cases), len(plain) - nplain + len(CORPUS_P) + len(CORPUS_E), len(rich)))
         self._plain = plain
         return res
 
@@ -1013,8 +1322,12 @@ class C12(Prop):
         # mismatching cases first, then a seeded random search
         pool = [(m["ops"], m["history"]) for m in corr.mismatches[:20] if "ops" in m]
         for _ in range(ctx.n(150, 1500)):
-            ops_desc = gen_model(ctx.rng, ctx.rng.random() < 0.4)
-            hist, _ev, _er = gen_history(ctx.rng, ops_desc, ctx.n(14, 30), ctx.work)
+            if ctx.rng.random() < 0.3:
+                ops_desc = gen_prop_model(ctx.rng)
+                hist, _ev, _er = gen_history(ctx.rng, ops_desc, ctx.n(14, 30), ctx.work, add_all=True, again=0.75, calm=True)
+            else:
+                ops_desc = gen_model(ctx.rng, ctx.rng.random() < 0.4)
+                hist, _ev, _er = gen_history(ctx.rng, ops_desc, ctx.n(14, 30), ctx.work)
             pool.append((ops_desc, hist))
         for (ops_desc, hist) in pool:
             try:
